@@ -43,7 +43,7 @@ THEOREMS = {
     'C01_keyless_off': '[model wiring] with keyless_entries=False the reader with options (Model/BibOpts.lean: parseBibK, the model behind op c01_bibopts) is the reader parseBib the round-trip theorems are about, for every macro table, role list, wanted-set and mode',
     'C01_keyless_numbering': 'key-less entries: process_entry(type, None, fields) is process_entry with the key unnamed-<counter> and the counter increased by one (first conjunct: unfolding [model wiring]); different counter values give different keys (decimal rendering is injective)',
     'C01_keyless_numbering_nonvacuous': 'kernel-evaluated: three key-less entries (brace / parenthesis delimiters, leading comma, empty body) are read as unnamed-1..3 without reports',
-    'C01_person_fields_option': 'person_fields=roles: a field is a person field iff its name equals a role up to ASCII letter case; with person_fields=[] (the BibTeX engine) none is',
+    'C01_person_fields_option': "[model wiring] person_fields=roles: the model's test is membership of lower(name) in the lower-cased roles (unfolding of isPersonFieldOf; tie to the code: op c01_bibopts); with person_fields=[] none is",
 }
 RULE = ('abstract documents (entries, @string, @preamble, @comment, junk; values = literal / macro pieces) rendered under layouts: '
         'every sequence of <= 2 commands of a pool and hand-written documents x every global layout combination {2 delimiters x 3 literal spellings x '
